@@ -258,7 +258,7 @@ func (h *History) offerFailThenSucceed(b int) {
 			}
 		default: // somebody deploys a time lock
 			amt := new(big.Int).Mul(fpg, big.NewInt(3000000))
-			if n.App.State.GetBalance(w.Addrs[i]).Cmp(new(big.Int).Add(amt, new(big.Int).Mul(fpg, big.NewInt(1000000)))) > 0 {
+			if len(h.liveContracts("timelock")) < 6 && n.App.State.GetBalance(w.Addrs[i]).Cmp(new(big.Int).Add(amt, new(big.Int).Mul(fpg, big.NewInt(1000000)))) > 0 {
 				p, _ := attachments.CreateDeployContractAttachment(embedded.TimeLockContract, nil, nil, u64b(1)).ToBytes()
 				if stx := h.contractTx(i, fmt.Sprint("after-tight-deploy", b), &types.Transaction{Type: types.DeployContractTx, Amount: amt, Payload: p}); stx != nil {
 					h.Contracts = append(h.Contracts, &ContractInfo{Addr: env.ComputeContractAddr(stx, w.Addrs[i]), Kind: "timelock", Owner: i})
@@ -268,7 +268,7 @@ func (h *History) offerFailThenSucceed(b int) {
 			}
 		}
 	}
-	if c.Kind == "timelock" && r.Intn(2) == 0 { // and the same owner again, with plenty of gas
+	if c.Kind == "timelock" && (done == 0 || r.Intn(2) == 0) { // and the same owner again, with plenty of gas
 		p, _ := attachments.CreateCallContractAttachment("transfer", w.Addrs[1+r.Intn(nU)].Bytes(), big.NewInt(1).Bytes()).ToBytes()
 		if h.contractTx(caller, fmt.Sprint("after-tight-same", b), &types.Transaction{Type: types.CallContractTx, To: &x, Payload: p}) != nil {
 			h.Stats["contract:after-failed:same-owner"]++
@@ -470,14 +470,18 @@ func (h *History) advanceVotings(b int) {
 	if len(votings) < 2 && r.Intn(6) == 0 {
 		i := user()
 		if rich(i, new(big.Int).Add(minStake, Dna(6000))) {
-			args := [][]byte{[]byte(fmt.Sprint("fact", b)), u64b(uint64(now - 100)), u64b(uint64(3 + r.Intn(5))), u64b(100), {byte(51 + r.Intn(20))}, {1}, u64b(100), Dna(int64(1 + r.Intn(5))).Bytes(), {0}}
+			vdur := uint64(3 + r.Intn(5))
+			if r.Intn(5) == 0 {
+				vdur = 50 // the secret voting spans a validation ceremony: it has to be prolonged in the new epoch
+			}
+			args := [][]byte{[]byte(fmt.Sprint("fact", b)), u64b(uint64(now - 100)), u64b(vdur), u64b(100), {byte(51 + r.Intn(20))}, {1}, u64b(100), Dna(int64(1 + r.Intn(5))).Bytes(), {0}}
 			if r.Intn(3) == 0 { // owner fee with a reward fund
 				args[8] = []byte{byte(1 + r.Intn(20))}
 				args = append(args, Dna(int64(r.Intn(50))).Bytes())
 			}
 			p, _ := attachments.CreateDeployContractAttachment(embedded.OracleVotingContract, nil, nil, args...).ToBytes()
 			if stx := h.contractTx(i, fmt.Sprint("deploy-voting", b), &types.Transaction{Type: types.DeployContractTx, Amount: new(big.Int).Add(minStake, big.NewInt(int64(r.Intn(3)))), Payload: p}); stx != nil {
-				h.Contracts = append(h.Contracts, &ContractInfo{Addr: env.ComputeContractAddr(stx, w.Addrs[i]), Kind: "voting", Owner: i, votes: map[int]*voteRec{}})
+				h.Contracts = append(h.Contracts, &ContractInfo{Addr: env.ComputeContractAddr(stx, w.Addrs[i]), Kind: "voting", Owner: i, votes: map[int]*voteRec{}, Locked: r.Intn(3) == 0}) // Locked: nobody votes in the first round
 				h.Stats["contract:deploy-voting"]++
 			}
 		}
@@ -505,6 +509,11 @@ func (h *History) advanceVotings(b int) {
 			}
 		case 1:
 			dur := next - startBlock
+			if v.round == 0 {
+				v.round = int(startBlock)
+			} else if v.round != int(startBlock) { // prolonged with a new start block: the next round is a normal one
+				v.round, v.Locked = int(startBlock), false
+			}
 			cEpoch, _ := helpers.ExtractUInt16(0, h.cval(v.Addr, "epoch"))
 			minPay := new(big.Int).SetBytes(h.cval(v.Addr, "votingMinPayment"))
 			if cEpoch != n.App.State.Epoch() && dur < vd {
@@ -512,7 +521,7 @@ func (h *History) advanceVotings(b int) {
 				break
 			}
 			if dur < vd { // secret voting: the validated users send their vote hashes with the payment
-				for i := 1; i <= nU; i++ {
+				for i := 1; i <= nU && !v.Locked; i++ {
 					if v.votes[i] != nil || !n.App.State.GetIdentityState(w.Addrs[i]).NewbieOrBetter() || r.Intn(2) == 0 {
 						continue
 					}
@@ -554,7 +563,7 @@ func (h *History) advanceVotings(b int) {
 				h.callC(user(), v, b, "finishVoting", nil, "some-secret")
 			}
 		default: // finished: cannot be terminated for days; try now and then
-			if r.Intn(10) == 0 {
+			if r.Intn(30) == 0 {
 				p, _ := attachments.CreateTerminateContractAttachment().ToBytes()
 				x := v.Addr
 				if h.contractTx(user(), fmt.Sprint("terminate-voting", b), &types.Transaction{Type: types.TerminateContractTx, To: &x, Payload: p}) != nil {
@@ -602,14 +611,14 @@ func (h *History) advanceVotings(b int) {
 		vLive := l.Voting.Live(n)
 		switch l.Kind {
 		case "lock":
-			if n.App.State.GetBalance(l.Addr).Sign() == 0 && r.Intn(3) == 0 {
+			checked := h.cbyte(l.Addr, "isOracleVotingFinished") == 1
+			if !checked && n.App.State.GetBalance(l.Addr).Sign() == 0 && r.Intn(3) == 0 {
 				i := user()
 				x := l.Addr
 				if rich(i, Dna(300)) && h.try(i, fmt.Sprint("fund-lock", b), &types.Transaction{Type: types.SendTx, To: &x, Amount: Dna(int64(5 + r.Intn(200)))}) != nil {
 					h.Stats["contract:fund-lock"]++
 				}
 			}
-			checked := h.cbyte(l.Addr, "isOracleVotingFinished") == 1
 			switch {
 			case vst == 2 && !checked:
 				h.callC(user(), l, b, "checkOracleVoting", nil, "finished")
@@ -627,25 +636,25 @@ func (h *History) advanceVotings(b int) {
 		case "rlock":
 			lst := h.cbyte(l.Addr, "state")
 			switch {
-			case lst == 0 && now < l.deadline && r.Intn(2) == 0: // deposits (paid calls; a share goes on to the voting)
+			case lst == 1 && now < l.deadline && r.Intn(2) == 0: // deposits (paid calls; a share goes on to the voting)
 				i := user()
 				amt := Dna(int64(1 + r.Intn(60)))
 				if rich(i, amt) {
 					h.callC(i, l, b, "deposit", amt, "open")
 				}
-			case lst == 0 && now >= l.deadline && r.Intn(6) == 0:
+			case lst == 1 && now >= l.deadline && r.Intn(6) == 0:
 				h.callC(user(), l, b, "deposit", Dna(1), "late")
-			case lst == 0 && (vst == 2 || !vLive):
+			case lst == 1 && (vst == 2 || !vLive):
 				h.callC(user(), l, b, "push", nil, "voting-finished")
-			case lst == 0 && r.Intn(8) == 0:
+			case lst == 1 && r.Intn(8) == 0:
 				h.callC(user(), l, b, "push", nil, "early")
-			case lst == 3 && n.App.State.GetBalance(l.Addr).Sign() > 0: // unlocked for refund
+			case lst == 4 && n.App.State.GetBalance(l.Addr).Sign() > 0: // unlocked for refund
 				if next >= h.cu64(l.Addr, "refundBlock") {
 					h.callC(user(), l, b, "refund", nil, "due")
 				} else if r.Intn(3) == 0 {
 					h.callC(user(), l, b, "refund", nil, "early")
 				}
-			case lst != 0 && n.App.State.GetBalance(l.Addr).Sign() == 0 && r.Intn(4) == 0:
+			case lst >= 2 && n.App.State.GetBalance(l.Addr).Sign() == 0 && r.Intn(4) == 0:
 				p, _ := attachments.CreateTerminateContractAttachment(w.Addrs[user()].Bytes()).ToBytes()
 				x := l.Addr
 				if h.contractTx(l.Owner, fmt.Sprint("terminate-rlock", b), &types.Transaction{Type: types.TerminateContractTx, To: &x, Payload: p}) != nil {
@@ -661,7 +670,7 @@ func (h *History) advanceVotings(b int) {
 func (h *History) wasmAction(b int) {
 	n, r, w := h.N, h.R, h.W
 	fpg := n.App.State.FeePerGas()
-	if common.ZeroOrNil(fpg) || !n.Cfg.Consensus.EnableUpgrade11 || len(w.Keys) < 3 || r.Intn(5) != 0 {
+	if common.ZeroOrNil(fpg) || !n.Cfg.Consensus.EnableUpgrade11 || len(w.Keys) < 3 || r.Intn(3) != 0 {
 		return
 	}
 	nU := len(w.Keys) - 1
@@ -674,6 +683,7 @@ func (h *History) wasmAction(b int) {
 		if c.Addr == (common.Address{}) {
 			if rc := n.Chain.GetReceipt(c.deployTx); rc != nil && rc.Success {
 				c.Addr = rc.ContractAddress
+				h.Stats["contract:"+c.Kind+":deployed"]++
 			}
 		}
 		if c.Addr != (common.Address{}) && c.Live(n) {
